@@ -31,11 +31,11 @@ InsertAfter(t, i, ln) == SubSeq(t, 1, i) \o <<ln>> \o SubSeq(t, i + 1, Len(t))
 CanInsert(t, i) == i >= 1 /\ (StrictOther => SecAt(t, i) # "O")      \* i >= 1: ~V stays the first line (a leading blank line is
                                                                    \* covered by the concretiser's padding choices)
 DataIdx(t) == {i \in DOMAIN t : t[i].k = "data"}
+\* the token stream of the data section cut into lines of `per` tokens -- at ANY token boundary, also across depth steps
 ReWrapped(t, per) ==
-    LET rows == R!Rows(t)  c == R!NCols(rows)  a == R!TitleOf(t, "A")
-        lines == FlattenSeq([r \in DOMAIN rows |->
-                    [q \in 1..((c + per - 1) \div per) |->
-                        [k |-> "data", cells |-> SubSeq(rows[r], (q - 1) * per + 1, IF q * per <= c THEN q * per ELSE c)]]])
+    LET flat == FlattenSeq(R!Rows(t))  nt == Len(flat)  a == R!TitleOf(t, "A")
+        lines == [q \in 1..((nt + per - 1) \div per) |->
+                    [k |-> "data", cells |-> SubSeq(flat, (q - 1) * per + 1, IF q * per <= nt THEN q * per ELSE nt)]]
     IN SubSeq(t, 1, a) \o lines \o SubSeq(t, R!NextTitle(t, a), Len(t))
 
 Init == /\ \E b \in DOMAIN Bases : base = b /\ text = Bases[b]
@@ -45,7 +45,7 @@ Next == /\ n < MaxSteps
         /\ \/ \E i \in 1..Len(text) : CanInsert(text, i) /\ Step(InsertAfter(text, i, [k |-> "blank"]), <<"blank", i>>)
            \/ \E i \in 1..Len(text) : CanInsert(text, i) /\ Step(InsertAfter(text, i, [k |-> "comment"]), <<"comment", i>>)
            \/ /\ R!Wrap(text) = "YES" /\ \A i \in R!BodyIdx(text, R!TitleOf(text, "A")) : text[i].k = "data"
-              /\ \E per \in 1..R!NCols(R!Rows(text)) : Step(ReWrapped(text, per), <<"rewrap", per>>)
+              /\ \E per \in 1..(2 * R!NCols(R!Rows(text))) : Step(ReWrapped(text, per), <<"rewrap", per>>)
 Spec == Init /\ [][Next]_<<text, base, n, ops>>
 
 PresentationOnly == R!Read(text, Opts) = R!Read(Bases[base], Opts)
